@@ -167,10 +167,10 @@ example : (mkLinear 5 0 1).map Gen.all = some [0, 1/4, 1/2, 3/4, 1] := by decide
 /-- the text form: whatever `lin( n : a b )` is accepted as, it is the linear generator of the count the
     integer scanner reads behind the opening parenthesis (`n`, giving `n + 1` elements, 32-bit wrap) between the
     bounds the number scanner reads behind the `:` (0 and 1 when that group is absent), and the closing
-    parenthesis follows; for canonical texts `accepted` says which numbers these are -/
+    parenthesis follows with nothing but white space behind it; for canonical texts `accepted` says which numbers these are -/
 theorem linear_text (s : List Char) (g : Gen) (h : linArgs s = some g) :
     ∃ c s0 n s1 a b s2, nextvis s = .ok (c, s0) ∧ c = '(' ∧ cuint32 s0.tail = .ok n s1 ∧
-      linRange s1 = some (a, b, s2) ∧ nextIs s2 ')' = true ∧ 2 ≤ wrap32 (n + 1) ∧
+      linRange s1 = some (a, b, s2) ∧ closeOk s2 = true ∧ 2 ≤ wrap32 (n + 1) ∧
       g = .linear a ((b - a) / ((wrap32 (n + 1) - 1 : Nat) : Rat)) (wrap32 (n + 1)) 0 := by
   unfold linArgs at h
   split at h
@@ -292,9 +292,9 @@ theorem malformed_refused (s : List Char) :
   refine ⟨create_refuses_malformed s, ?_⟩
   intro g h
   rcases h with h | h | h
-  · exact linArgs_parens s g h
-  · exact facArgs_parens s g h
-  · exact rangeArgs_parens s g h
+  · exact ⟨(linArgs_parens s g h).1, (linArgs_parens s g h).2.1⟩
+  · exact ⟨(facArgs_parens s g h).1, (facArgs_parens s g h).2.1⟩
+  · exact ⟨(rangeArgs_parens s g h).1, (rangeArgs_parens s g h).2.1⟩
 
 example : IterSpec.certainlyMalformed "linx(4 : 0 1)".toList = true ∧ create "lin(4 : 0 1".toList = none
     ∧ create "lin(4  : 0 1)".toList = none ∧ create "lin(0 : 0 1)".toList = none := by decide +kernel
@@ -372,6 +372,10 @@ example : ((StrIt.create (some "1,2 3".toList) none).run [.value, .value, .advan
     = [.val (some 1), .val (some 1), .adv .more, .rst, .val (some 1), .adv .more, .val (some 2), .adv .more,
        .val (some 3), .adv .last, .val none, .adv .last, .adv (.err .MissingData)] := by decide +kernel
 
+/-- white space behind the last number is no further element -/
+example : ((StrIt.create (some "1 2 ".toList) none).run [.value, .advance, .value, .advance, .value, .advance])
+    = [.val (some 1), .adv .more, .val (some 2), .adv .last, .val none, .adv .last] := by decide +kernel
+
 /-- **Key reads**: over a text of words separated by single characters of the separator set (words without
     white space and separator characters) the documented loop with key reads yields the words, in order. -/
 theorem key_walk (sep : List Char) (pairs : List (List Char × Char)) (last : List Char)
@@ -434,15 +438,15 @@ theorem consume_skip_unsigned (g : Gen) (h : g.WF) :
   ⟨(skip_gen g h).1, (skip_gen g h).2, consumeU_gen g h⟩
 
 /-- **Consume on a text argument**: `'d'` delivers the number token at the position and moves behind its
-    separator, `'u'` the same for a count token. -/
-theorem consume_text (sep pre t : List Char) (c : Char) (rest : List Char) :
+    separator (the text goes on with something that is not white space), `'u'` the same for a count token. -/
+theorem consume_text (sep pre t : List Char) (c : Char) (rest : List Char) (hr : NoLeadSpace rest) :
     (∀ v, strictNumber t = some v → SepChar c →
       (Src.str (atPos sep (pre ++ (t ++ c :: rest)) pre.length)).consumeD =
         (.str (atPos sep ((pre ++ t ++ [c]) ++ rest) (pre ++ t ++ [c]).length), .ok v)) ∧
     (∀ k, strictCount t = some k → isDigit c = false →
       (Src.str (atPos sep (pre ++ (t ++ c :: rest)) pre.length)).consumeU =
         (.str (atPos sep ((pre ++ t ++ [c]) ++ rest) (pre ++ t ++ [c]).length), .ok k)) :=
-  ⟨fun v hv hs => consumeD_mid sep pre t c rest v hv hs, fun k hk hc => consumeU_mid sep pre t c rest k hk hc⟩
+  ⟨fun v hv hs => consumeD_mid sep pre t c rest v hv hs hr, fun k hk hc => consumeU_mid sep pre t c rest k hk hc hr⟩
 
 /-- **Linear generator from an argument iterator**: fed with the text `n a b` (any single separator
     characters) `_mpt_iterator_linear` makes the same generator as the description `lin(n : a b)`. -/
@@ -551,6 +555,14 @@ example : malformedCount "lin(abc)".toList = true ∧ malformedCount "lin()".toL
     malformedCount "lin(4 ; 0 1)".toList = true ∧ malformedCount "lin(-3 : 0 1)".toList = true ∧
     malformedCount "fac(:2)".toList = true ∧ malformedCount "lin(4 : 0 1)".toList = false ∧
     malformedCount "fac(3)".toList = false := by decide +kernel
+
+/-- **Text behind the description is refused**: a keyword description that does not end (white space aside)
+    with its closing parenthesis — `lin(2:0 1)junk`, `fac(3) 4` — is refused. -/
+theorem trailing_junk_refused (s : List Char) (h : trailingJunk s = true) : create s = none :=
+  trailingJunk_refused s h
+
+example : trailingJunk "lin(2:0 1)junk".toList = true ∧ trailingJunk "lin(2:0 1) \t".toList = false ∧
+    create "lin(2:0 1) ".toList ≠ none := by decide +kernel
 
 /-- **Recognised descriptions without a sequence are refused**: `lin(0 : a b)` (no step), `range(a b …)` with
     `b ≤ a`, a step that is not positive. -/
